@@ -55,7 +55,7 @@ def gen_axes(rng, c, nmaps, prof):
         code = i  # ABS_X.. small codes
         node = rng.choice(["event3", "event3", "event4"])
         sub = rng.choice(SUBS)
-        shape = rng.choice(["s8", "u8", "hat", "s16", "u16", "asym"])
+        shape = rng.choice(["s8", "u8", "hat", "s16", "u16", "asym", "u10"])
         twin = None
         if axes and rng.random() < prof.get("twin_axis_p", 0.3):
             # the same ABS code on another handler of the device (main handler / named sub-handler): the two axes
@@ -66,10 +66,13 @@ def gen_axes(rng, c, nmaps, prof):
                 sub = "s1" if twin["sub"] == "-" else "-"
                 node = {"event3": "event4", "event4": "event3"}.get(twin["node"], "event3")
                 shape = shapes[id(twin)]
+                if rng.random() < 0.5:
+                    # ... nor their ranges: sticks 0..255 and a touchpad 0..1919 report the same code on two handlers
+                    shape = rng.choice([x for x in ["s8", "u8", "s16", "u16", "asym", "u10"] if x != shape])
             else:
                 twin = None
         mn, mx = {"s8": (-128, 127), "u8": (0, 255), "hat": (-1, 1), "s16": (-32768, 32767),
-                  "u16": (0, 65535), "asym": (-100, 300)}[shape]
+                  "u16": (0, 65535), "asym": (-100, 300), "u10": (0, 1023)}[shape]
         c.cfg.append("cfg.axis %s %d %d %d" % (node, code, mn, mx))
         ax = {"code": code, "node": node, "sub": sub, "min": mn, "max": mx, "maps": {}}
         shapes[id(ax)] = shape
@@ -189,9 +192,12 @@ def gen_case(rng, cid, prof):
     exitseq = rng.sample(allcodes, min(nexit, len(allcodes)))
     if exitseq:
         c.cfg.append("cfg.exit " + " ".join(map(str, exitseq)))
-    axes = gen_axes(rng, c, nmaps, prof) if prof.get("axes", True) else []
+    axes = gen_axes(rng, c, nmaps, prof) if prof.get("axes", True) and rng.random() < prof.get("axes_p", 1.0) else []
 
     c.meta = {"mode": mode, "accepted": accepted}
+    if rng.random() < prof.get("slow_sink_p", 0.1):
+        # "stall": slow, and at the disconnect the receiver takes nothing for 150 ms while the queue is full
+        c.meta["sink"] = rng.choice(["slow", "slow", "stall"])
     c.info = {"note_keys": {k: sorted(v) for k, v in note_keys.items()}, "act_keys": act_keys, "exitseq": exitseq, "axes": axes}
     gen_history(rng, c, prof)
     return c
@@ -206,12 +212,16 @@ def gen_history(rng, c, prof):
         # sweep: every raw value of one axis (8-bit / hat / asymmetric), or edges and samples of a 16-bit one
         ax = rng.choice(axes)
         mn, mx = ax["min"], ax["max"]
-        vals = list(range(mn, mx + 1)) if mx - mn <= 400 else sorted(set(axis_positions(rng, ax) + [rng.randint(mn, mx) for _ in range(200)]))
+        vals = list(range(mn, mx + 1)) if mx - mn <= 1100 else sorted(set(axis_positions(rng, ax) + [rng.randint(mn, mx) for _ in range(200)]))
         if rng.random() < 0.3:
             rng.shuffle(vals)
         elif rng.random() < 0.5:
             vals.reverse()
         c.events = ["abs %s %s %d %d" % (ax["sub"], ax["node"], ax["code"], v) for v in vals]
+        lk = [k for k, a in act_keys.items() if a == "cc_learning" and k not in exitseq]
+        if lk and rng.random() < 0.4:
+            # the whole sweep with the CC-learning key held
+            c.events = ["key - %d 1" % lk[0]] + c.events + ["key - %d 0" % lk[0]]
         c.disconnect = False
         c.meta["sweep"] = True
         return c
@@ -287,6 +297,30 @@ def gen_history(rng, c, prof):
                     seq += tap(inv0[rng.choice(cu[:1])])
                 seq += ["key %s %d 1" % (b[0], b[1]), "key %s %d 0" % (a[0], a[1]), "key %s %d 0" % (b[0], b[1])]
         ev += seq
+    # directed: the CC-learning key held while axes move a little (such movements are filtered) or a lot, then released;
+    # the axes move again afterwards
+    lk = [k for k, a in act_keys.items() if a == "cc_learning" and k not in exitseq and k not in down]
+    if lk and axes and rng.random() < prof.get("learn_axis_p", 0.25):
+        seq = []
+        def pos(ax, small):
+            mn, mx = ax["min"], ax["max"]
+            mid = (mn + mx) // 2 if mn == 0 else 0
+            span = mx - mn
+            if small:
+                return max(mn, min(mx, mid + rng.choice([0, 0, 1, -1, span // 10, -(span // 10), span // 5, -(span // 5)])))
+            return rng.choice([mn, mx, mn + span // 8, mx - span // 8, rng.randint(mn, mx)])
+        for ax in rng.sample(axes, min(len(axes), rng.choice([1, 1, 2]))):
+            if rng.random() < 0.6:
+                seq.append("abs %s %s %d %d" % (ax["sub"], ax["node"], ax["code"], pos(ax, False)))
+        seq.append("key - %d 1" % lk[0])
+        for _ in range(rng.choice([1, 2, 3, 6])):
+            ax = rng.choice(axes)
+            seq.append("abs %s %s %d %d" % (ax["sub"], ax["node"], ax["code"], pos(ax, rng.random() < 0.7)))
+        seq.append("key - %d 0" % lk[0])
+        for _ in range(rng.choice([0, 1, 2])):
+            ax = rng.choice(axes)
+            seq.append("abs %s %s %d %d" % (ax["sub"], ax["node"], ax["code"], pos(ax, rng.random() < 0.5)))
+        ev += seq
     # directed: a panic pressed and released while another action key (or a note key) is held, then the partner of that
     # action / another note — what was held across the panic must still count as held afterwards
     inv = {a: k for k, a in act_keys.items()}
@@ -296,6 +330,13 @@ def gen_history(rng, c, prof):
         pk = inv["panic"]
         if pk not in down:
             seq = []
+            # a key-emulating axis held at an end stop across the panic (its note may live on another channel)
+            kax = [ax for ax in axes if any(m_["kind"] == "key" for m_ in ax["maps"].values())]
+            held_ax = rng.choice(kax) if kax and rng.random() < 0.7 else None
+            if held_ax:
+                seq.append("abs %s %s %d %d" % (held_ax["sub"], held_ax["node"], held_ax["code"], rng.choice([held_ax["min"], held_ax["max"]])))
+                if not pairs and rng.random() < 0.7:
+                    seq += ["key - %d 1" % pk, "key - %d 0" % pk]
             if pairs:
                 u, d_ = rng.choice(pairs)
                 if rng.random() < 0.5:
@@ -313,6 +354,9 @@ def gen_history(rng, c, prof):
                 if kn not in down:
                     sub = sorted(note_keys.get(kn, {"-"}))[0]
                     seq += ["key %s %d 1" % (sub, kn), "key %s %d 0" % (sub, kn)]
+            if held_ax:
+                seq.append("abs %s %s %d %d" % (held_ax["sub"], held_ax["node"], held_ax["code"],
+                                                (held_ax["min"] + held_ax["max"]) // 2 if held_ax["min"] == 0 else 0))
             ev += seq
     if rng.random() < prof.get("release_all_p", 0.5):
         for code in sorted(down):
@@ -380,7 +424,10 @@ def execute(cases, binary, workdir, tag="dev", jobs=8):
 
     def work(args):
         i, part = args
-        ops = "\n".join("\n".join(c.lines()) for c in part) + "\n"
+        # a case marked `sink: slow` is run by the implementation with the 8-slot output queue of cmd/hidi/main.go, full of
+        # other traffic whenever the device wants to send, and a reader that takes its time; what the device emits must not
+        # depend on that (the model knows nothing about queues)
+        ops = "\n".join("\n".join(("cfg.end " + c.meta["sink"] if l == "cfg.end" and c.meta.get("sink") in ("slow", "stall") else l) for l in c.lines()) for c in part) + "\n"
         rc, gout, glog = run_go(binary, ops, workdir, "%s-%d" % (tag, i))
         g = parse_outputs(gout)
         merged = []
